@@ -73,13 +73,6 @@ Proof.
     rewrite !itoa_atoi. reflexivity.
 Qed.
 
-Lemma consumed_cons (e : edit line) es :
-  consumed (e :: es) = match eop e with Copy => [] | _ => X e end ++ consumed es.
-Proof. reflexivity. Qed.
-Lemma produced_cons (e : edit line) es :
-  produced (e :: es) = match eop e with Drop => [] | Emit => X e | _ => Y e end ++ produced es.
-Proof. reflexivity. Qed.
-
 (* ---- the edits of one chunk; [g] = unchanged lines the applier has not copied yet ---- *)
 (* the strictness clause of the applier vanishes when its comparisons hold *)
 Ltac strict_ok :=
@@ -260,7 +253,7 @@ Proof.
   intros lpos rpos l r H. induction H as [lpos rpos g0 | lpos rpos g0 c cs l r HL HR HLe HRe Hcf IH];
     intros Hok g pos opos fuel Hpos Hopos Hfuel.
   - destruct fuel; [cbn in Hfuel; lia|]. reflexivity.
-  - inversion Hok as [|? ? (Hl1 & Hr1 & He) Hok']; subst.
+  - inversion Hok as [|? ? (Hl1 & Hr1 & He & _ & _) Hok']; subst.
     unfold normal_lines, normal_chunk_lines, normal_lpos_init, normal_rpos_init in *. cbn [flat_map] in *.
     rewrite (app_assoc g g0). rewrite (app_assoc g g0 (produced (edits c) ++ r)).
     assert (Hh : head_stops (flat_map (fun c => normal_edits (edits c) (LStart c) (RStart c)) cs)).
